@@ -23,7 +23,18 @@ struct GenCfg {
 static const uint8_t kNameAlphabet[] = {0x00, 'a', 'b', 0x7f, 0x80, 0xff};
 
 inline int64_t gen_int(Src &s) {
-    switch (s.u8() % 8) {
+    uint8_t isel = s.u8();
+    if (isel >= 0xe0) {
+        // decimal boundaries: d * 10^k (+ -1, 0, 1, or a 9-digit tail), either sign - where decimal formatters group digits
+        uint64_t v = 1 + s.u8() % 9;
+        unsigned k = s.u8() % 19;
+        for (unsigned i = 0; i < k; i++) v *= 10;
+        switch (s.u8() % 5) { case 0: v -= 1; break; case 1: v += 1; break; case 2: v += 123456789; break; case 3: v += (uint64_t)s.u8() * 1000000000ULL; break; default: break; }
+        if (v > (uint64_t)INT64_MAX) v = (uint64_t)INT64_MAX - (v % 1000);
+        int64_t r = (int64_t)v;
+        return (isel & 1) ? -r : r;
+    }
+    switch (isel % 8) {
     case 0: return (int8_t)s.u8();
     case 1: return (int16_t)s.u16();
     case 2: {
@@ -102,6 +113,14 @@ inline uint64_t gen_double_bits(Src &s) {
 
 inline size_t gen_len(Src &s, bool big) {
     uint8_t sel = s.u8();
+    if (sel >= 0xe8 && sel < 0xf0) {
+        // whole multiples of common block sizes (chunked encoders / copy loops): k * c, k = 1..8 (with `big` up to 70000)
+        static const uint16_t cs[] = {16, 24, 32, 48, 64, 96, 100, 128, 192, 200, 256, 384, 512, 1000, 1024, 4096};
+        size_t v = (size_t)cs[s.u8() % 16] * (1 + s.u8() % 8);
+        if (!big && v > 1600) v = cs[sel % 16];
+        if (big && (sel & 1)) v *= 1 + s.u8() % 16;
+        return v > 70000 ? 70000 - (70000 % 192) : v;
+    }
     if (sel >= 0xf0) {
         // magnitudes at and around powers of two: 2^k-1, 2^k, 2^k+1 (k = 1..10, with `big` up to 2^16), 1000, 4095..4097
         unsigned k = 1 + s.u8() % (big ? 16 : 10);
@@ -145,12 +164,21 @@ inline Bytes gen_payload(Src &s, size_t len) {
         uint8_t seed = s.u8(), step = s.u8();
         b.resize(len);
         for (size_t i = 0; i < len; i++) b[i] = (uint8_t)(seed + i * step);
+        if (step & 2) for (size_t i = 0; i < len; i++) if (!b[i]) b[i] = 0x7a;  // half of the long payloads are NUL-free (C-string API, string_equals)
     }
     return b;
 }
 
 inline Bytes gen_name(Src &s, unsigned style, bool big) {
     Bytes n;
+    if (style % 16 == 6) {
+        // real UTF-8 text: 1-2 code points from the boundaries of the 1/2/3/4-byte forms and around the surrogate gap
+        static const char *cp[] = {"\x7f", "\xc2\x80", "\xdf\xbf", "\xe0\xa0\x80", "\xed\x9f\xbf", "\xee\x80\x80", "\xef\xbf\xbd", "\xef\xbf\xbf",
+                                   "\xf0\x90\x80\x80", "\xf0\x9f\x98\x80", "\xf4\x8f\xbf\xbf", "a", "\xc3\xa9", "\xe2\x82\xac"};
+        unsigned cnt = 1 + s.u8() % 2;
+        for (unsigned i = 0; i < cnt; i++) { const char *c = cp[s.u8() % 14]; n.insert(n.end(), (const uint8_t *)c, (const uint8_t *)c + strlen(c)); }
+        return n;
+    }
     switch (style % 8 == 7 ? 4 : style % 4) {
     case 4: {  // long common stem + a short distinguishing tail; the stem length is drawn per name, so that siblings are
                // prefix-related with length differences of 1..200 and (with `big`) of 1..32771 around the 15/16-bit boundaries
